@@ -58,7 +58,17 @@ static int op_block_resieve(int argc, tok_t *a, out_t *o) {
   dst_free(bp); free(sv); return 0;
 }
 
+/* npc_walk n seed -> candidate : mpz_next_prime_candidate (library); judged by the Lean side's walk of the residue loop */
+static int op_npc_walk(int argc, tok_t *a, out_t *o) {
+  NEED(argc == 2 && a[0].kind == T_NUM && IS_UI(a[1]));
+  mpz_t n, r; mpz_init(n); mpz_init2(r, 1); tok_mpz(n, &a[0]);
+  gmp_randstate_t st; gmp_randinit_default(st); gmp_randseed_ui(st, tok_ulong(&a[1]));
+  mpz_next_prime_candidate(r, n, st);
+  out_mpz(o, r); gmp_randclear(st); mpz_clear(n); mpz_clear(r); return 0;
+}
+
 const opdef_t ops_sieve[] = {
   {"gmp_primesieve", op_primesieve}, {"first_block_primesieve", op_first_block}, {"block_resieve", op_block_resieve},
+  {"npc_walk", op_npc_walk},
   {0, 0}
 };
